@@ -244,7 +244,13 @@ def _in_region(k, v):
     case = v.get("case") or {}
     inner = case.get("inputs") if isinstance(case.get("inputs"), dict) else {}
     for key, val in reg.items():
-        if case.get(key, inner.get(key)) != val:
+        if "." in key:
+            cur_ = case
+            for part in key.split("."):
+                cur_ = cur_.get(part) if isinstance(cur_, dict) else None
+            if cur_ != val:
+                return False
+        elif case.get(key, inner.get(key)) != val:
             return False
     return True
 
